@@ -36,17 +36,33 @@ MANIFEST = {
             "service (refused / raises / replaces the instance: empty table, default limit, new uuid) and the FTP client at run time, "
             "FTP-client restart / fix / scan with their countdowns, payloads the dispatcher does not recognise (answered 500), a "
             "co-located client's own calls; shut-down duration 0; backup_server_ip None; a co-located client owning port 5432; a "
-            "saturated link as an adversarial input; DataManipulationBot / RansomwareScript. Tie: regenerated tables (Gen/Database.lean, "
-            "C17_gen_*), the translated functions, and differential rig R-db on real client/server/backup hosts behind a router.",
+            "saturated link as an adversarial input; DataManipulationBot / RansomwareScript. ROUND 4: (5) a tick backs up / restores only "
+            "if the service can act: a FIXING countdown that ends while the service is stopped / paused / disabled / restarting (or its "
+            "node is not ON) makes the health GOOD and does NOT fetch the backup, for every lifecycle state x countdown "
+            "(C17_tick_restores_only_if_running), and along every sequence of ticks and client traffic a halted service never "
+            "restores (C17_halted_service_never_restores_run); helpers shared by backup_database / restore_backup are inlined by the "
+            "translator. (6) the FTP layer the two transfers use - FTPClient.send_file / request_file / _connect_to_server / "
+            "_disconnect_from_server / receive, FTPServer.receive / _process_ftp_command, FTPServiceABC._store_data / _send_data / "
+            "_retrieve_data / _process_ftp_command / send, IOSoftware.send, on both hosts - is translated (Gen/DatabaseFtpTr.lean) and "
+            "PROVED EQUAL to the model's ftpSendFile / ftpRequestFile (C17_tr_ftp_*); only the delivery of a frame between the hosts is "
+            "stated. (7) the client's decision logic (DatabaseClient.receive, the re-attempt halves of _connect / _query, the handle "
+            "guards, _disconnect, get_new_connection / query / check_connection / execute) is translated (Gen/DatabaseClientTr.lean) and "
+            "tied to the model; along every run every DatabaseClientConnection carries an id the server issued to its OWN host, so a "
+            "query is sent only over such an id (C17_client_queries_own_connection). (8) file-system REQUESTS on database/ and "
+            "downloads/ (deleted copies modelled, restore of a deleted copy), re-install with non-default fixing duration / starting "
+            "health, compromise on the FTP client; what happens to the stored backup when it is deleted or the service re-installed "
+            "(orphans, C17_no_backup_stays_none_run). Tie: regenerated tables (Gen/Database.lean, C17_gen_*), the translated functions "
+            "(39 method instances, one obligation each), and differential rig R-db on real client/server/backup hosts behind a router.",
     "note": "C17-specific: the network between hosts is abstracted to per-direction reachability flags (validated by the rig "
             "with real ACL rules, NIC state and node power); the FTP transfers are modelled as far as the database uses them "
-            "(`ftpSendFile` / `ftpRequestFile`, hand-written, validated by the rig; the database service's logic around them is "
-            "translated); link LOAD ACCOUNTING is C18's: here a link refusing the file-transfer frame is an input of the model "
+            "(`ftpSendFile` / `ftpRequestFile`: since round 4 proved equal to the translated FTP code; what stays hand-written is "
+            "the delivery of a frame from one host to the other and the file-system primitives get / create / set-health); "
+            "link LOAD ACCOUNTING is C18's: here a link refusing the file-transfer frame is an input of the model "
             "(all values covered by the theorems) whose actual value the rig observes on the real links; the outcomes of the "
             "bot's Bernoulli trials are inputs of the model as well (the rig predicts them from the seed of Python's `random` "
             "and checks the draws the real code made); the file-system request surface (C15) is out of scope.",
     "technique": "Lean 4 theorems over an executable client/server/backup model; tied by regenerated tables, statement-by-statement "
-                 "translation of seven methods, and a differential rig",
+                 "translation of the server-side, FTP and client-side methods, and a differential rig",
     "design_ref": "5/C17",
 }
 MODULES = ["PrimaiteModel.Props.C17", "PrimaiteModel.Props.C17Run", "PrimaiteModel.Props.C17Recv", "PrimaiteModel.Props.C17Ftp",
